@@ -106,7 +106,7 @@ var All = []*Prop{
 	},
 	{
 		ID:    "C18",
-		Rules: []*core.Rule{rules.MapEncaps, rules.KeyNorm, rules.Tombstone, rules.LazyScan, rules.NumBirth},
+		Rules: []*core.Rule{rules.MapEncaps, rules.KeyNorm, rules.Tombstone, rules.LazyScan, rules.NumBirth, rules.NumRange},
 		Explanation: "R-MAPENCAPS: every write of a field of mapEntry/orderedMap/orderedMapIter and every access of their link fields lies in methods of those types (the tombstone/linked-list invariants are then local to map.go); size is +1 only on the insertion edge of set, -1 only on the found edge of remove, 0 only in clear. " +
 			"R-TOMBSTONE (live iteration under deletion, structural half): remove() marks the found entry with key = nil and leaves that entry's own iterPrev intact, clear() marks every entry inside its loop, and next() takes the iterPrev step inside a loop controlled by key == nil (any number of adjacent tombstones). " +
 			"R-KEYNORM: in lookup the hashed and compared key, and in set the stored key, is φ(key, intToValue(0)) under key == _negativeZero. " +
@@ -190,26 +190,26 @@ var All = []*Prop{
 	},
 	{
 		ID:    "C03",
-		Rules: []*core.Rule{rules.TryPair, rules.Boundary, rules.CtxFields, rules.ScopedState, rules.PairDefer, rules.ExitAgree},
+		Rules: []*core.Rule{rules.TryPair, rules.Boundary, rules.CtxFields, rules.ScopedState, rules.PairDefer, rules.ExitAgree, rules.GenResume},
 		Explanation: "goja unwinds by Go panics; handleThrow stops at the first tryPanicMarker frame for payloads it does not convert and trusts the frame's owner to pop it. " +
 			"R-TRYPAIR: every function that acquires a marker frame (pushTryFrame(tryPanicMarker,..) or a wrapper that hands the frame to its caller) registers popTryFrame in a defer before any other call; frames turned into markers in place are tagged and skipped by handleThrow for uncatchable payloads. " +
 			"R-BOUNDARY: in each recover handler that converts an uncatchable payload into an error return, the uncatchable branch reaches leaveAbrupt() guarded only by the empty call stack, other payloads are re-panicked, every normal return passes leave()/clearStack(), and leaveAbrupt drops the job queue and clears the interrupt flag. " +
 			"R-CTXFIELDS: the register set saved by saveCtx, restored by restoreCtx and by handleThrow equals the fields of `context`; every auxiliary stack of vm is snapshotted by pushTryFrame and truncated on unwinding; suspend/resume move exactly the per-activation stacks and re-base exactly the positional tryFrame fields. All sets are derived from the struct declarations on each run. " +
 			"R-SCOPEDSTATE: vm fields that name the activation being run for the duration of one Go call (table: curAsyncRunner) are reset by a deferred closure registered before any further call, so that a panic-borne unwind (interrupt, stack overflow, host panic) cannot leave them set on the idle Runtime. " +
 			"R-PAIRDEFER: the runtime-level acquire/release pairs of a confirmed table (pushToStringStack/popFromStringStack, AsyncContextTracker.Resumed/Exited) release in a defer registered before any further call; a deferred vm.popCtx() in a recovering boundary function runs only if the matching pushCtx() completed. " +
-			"R-EXITAGREE: leaveAbrupt() resets at least the vm/Runtime fields that the normal outermost exit (RunProgram's tail and leave()) resets.",
+			"R-EXITAGREE: leaveAbrupt() resets at least the vm/Runtime fields that the normal outermost exit (RunProgram's tail and leave()) resets. R-GENRESUME (see C09): the context pushed by generator.enterNext() is popped before every return of next/nextThrow, so no call-stack entry outlives a resumed generator or async continuation.",
 		Technique:  "panic-safe acquire/release pairing (defer-before-next-call), must-pass-through on the CFG with controlling-condition classification, writer/reader field-set agreement derived from struct declarations",
 		DesignRef:  "DESIGN.md section 4, C03",
 		NotCovered: "that the restored values are the right ones (offset arithmetic), call-depth limit arithmetic, effects of a failed k-th callback inside a builtin on that builtin's own data, 'behaves exactly as a runtime that executed only the completed effects' as a whole",
 	},
 	{
 		ID:    "C09",
-		Rules: []*core.Rule{rules.CtxFields, rules.TryPair, rules.GenResume, rules.MarkerTest, rules.GenState},
+		Rules: []*core.Rule{rules.CtxFields, rules.TryPair, rules.GenResume, rules.MarkerTest, rules.GenState, rules.UncatchableClose},
 		Explanation: "Faithful suspension requires that suspend() and resume() move exactly the per-activation state. R-CTXFIELDS derives from the declarations of vm, context, execCtx and tryFrame the set of registers and auxiliary stacks and checks that suspend saves and cuts each stack that resume appends back, that execCtx has a slot for each, and that every positional tryFrame field recorded by pushTryFrame is made relative by suspend and absolute by resume (or recomputed). " +
 			"R-TRYPAIR: the generator/async entry points (generator.next/nextThrow, generatorObject.init/_return, asyncRunner.start) release their marker frame panic-safely, so the runtime and the generator protocol remain usable after an interrupt/stack overflow inside a body. " +
 			"R-GENRESUME: next()/throw() reach the suspended body only by resuming it - enterNext() (which calls vm.resume(&g.ctx)) dominates every return of generator.next/nextThrow, and the saved stacks of execCtx are touched only by vm.suspend/vm.resume (audited read-only exception: captureAsyncStack) - so an injected exception always unwinds through the body's open iterators and finally blocks. " +
 			"R-MARKERTEST: whoever classifies a try frame as an entry marker by catchPos == tryPanicMarker also tests the in-place tag finallyRet == -2 (a generator frame whose finally runs for return() carries the same catchPos). " +
-			"R-GENSTATE: throw()/return() delivered to a generator in suspendedStart store genStateCompleted on every path before leaving (GeneratorResumeAbrupt step 2).",
+			"R-GENSTATE: throw()/return() delivered to a generator in suspendedStart store genStateCompleted on every path before leaving (GeneratorResumeAbrupt step 2); when the inner iterator of a yield* throws, the delegation is ended before the exception is thrown into the body. R-GENRESUME also requires vm.popCtx() before every return of generator.next/nextThrow. R-UNCATCHABLECLOSE (see C08): generator.return() closes the iterators the body still has open - dropStacks (truncate without closing) is reserved for uncatchable payloads.",
 		Technique:  "writer/reader field-set agreement derived from struct declarations; panic-safe acquire/release pairing; must-pass-through (dominance) of the resume call; who-may-access on saved-context fields; sibling-test agreement",
 		DesignRef:  "DESIGN.md section 4, C09",
 		NotCovered: "the generator state machine itself (results of next/throw/return sequences), yield* delegation protocol, survival of locals and partially evaluated expressions (stack copy contents), async ordering: history-level semantics",
@@ -226,11 +226,11 @@ var All = []*Prop{
 	},
 	{
 		ID:    "C05",
-		Rules: []*core.Rule{rules.NumBirth, rules.NumRange, rules.JSWhitespace},
+		Rules: []*core.Rule{rules.NumBirth, rules.NumRange, rules.JSWhitespace, rules.KeyNorm},
 		Explanation: "Canonical numeric representation (no integral float in ±2^53 other than -0 is ever stored as valueFloat) is a necessary condition for SameValue/===/Map-key equality of equal numbers, because valueInt.SameAs/hash compare representations. " +
 			"R-NUMBIRTH enumerates every SSA birth of a valueFloat in the module (Convert/ChangeType from a non-valueFloat, arithmetic on valueFloat) and requires an enumerated idiom: a constant that is not an integer in ±2^53, math.NaN/Inf, the -0 package constant, or a birth on the ok==false edge of floatToInt applied to the same SSA value. " +
 			"R-NUMRANGE (sibling agreement): the comparisons with +-2^53 controlling the valueInt result of intToValue and the ok=true result of floatToInt admit the boundary value in both (a finite question about comparison operators, not about values). " +
-			"R-JSWHITESPACE: StringToNumber/trim use ECMAScript's white-space set: in package goja strings.TrimSpace/Fields are applied only to the content of an asciiString (below 0x80 Go's and ECMAScript's sets coincide); every other string is trimmed with parser.WhitespaceChars.",
+			"R-JSWHITESPACE: StringToNumber/trim use ECMAScript's white-space set: in package goja strings.TrimSpace/Fields are applied only to the content of an asciiString (below 0x80 Go's and ECMAScript's sets coincide); every other string is trimmed with parser.WhitespaceChars. R-KEYNORM (see C18): Map/Set normalise a -0 key to +0 in lookup and in set, so that the two zeros are one key.",
 		Technique:  "who-may-construct rule over SSA births of valueFloat + dominance by the floatToInt !ok edge; comparison-operator agreement between sibling canonicalisers; who-may-call with argument typing",
 		DesignRef:  "DESIGN.md section 4, C05",
 		NotCovered: "that toInt32/ToNumber/string->number compute the right number; the Equals/hash tables themselves; valueInt range (R-INTBIRTH not armed)",
